@@ -579,6 +579,51 @@ fn relations(family: Family) -> Vec<Ast> {
     out
 }
 
+/// Hosts for the fault catalogue (C20, C04) and the targeted text checks (C12) in which parts of ONE packet are
+/// related: repeated user-property names with values of different lengths, equal and differently long
+/// neighbouring filters (a multi-byte character of the longer one straddling the length of the shorter),
+/// repeated codes, several fields with equal content.
+pub fn relation_hosts(family: Family) -> Vec<Ast> {
+    let v5 = family == Family::V5;
+    let mut out = Vec::new();
+    let up = |k: &str, v: &str| Prop { id: tables::USER_PROPERTY, val: PVal::Pair(k.into(), v.into()) };
+    let plists: Vec<Props> = if v5 {
+        vec![vec![up("a", "1"), up("a", "333")], vec![up("a", "333"), up("a", "1")], vec![up("a", "1"), up("b", "2"), up("a", "3")], vec![up("a", "1"), up("a", "1")]]
+    } else {
+        vec![vec![]]
+    };
+    let flists: Vec<Vec<&str>> = vec![vec!["aé/x", "ab"], vec!["ab", "aé/x"], vec!["a/b", "a/b"], vec!["a/b", "c", "a/b"], vec!["b", "a"]];
+    for pl in &plists {
+        for fl in &flists {
+            out.push(Ast::Subscribe { pid: 7, props: pl.clone(), topics: fl.iter().enumerate().map(|(i, f)| (f.to_string(), (i % 3) as u8)).collect() });
+            out.push(Ast::Unsubscribe { pid: 7, props: pl.clone(), topics: fl.iter().map(|f| f.to_string()).collect() });
+        }
+        out.push(Ast::Suback { pid: 7, props: pl.clone(), codes: vec![1, 1, 1] });
+        out.push(Ast::Publish { dup: false, qos: 1, retain: false, topic: "t".into(), pid: Some(7), props: pl.clone(), payload: b"t".to_vec() });
+        if v5 {
+            out.push(Ast::Unsuback { pid: 7, props: pl.clone(), codes: vec![0x11, 0x11] });
+            out.push(Ast::Connack { session_present: false, code: 0, props: pl.clone() });
+            out.push(Ast::Ack { typ: PUBACK, pid: 7, code: 0x10, props: pl.clone() });
+            out.push(Ast::Disconnect { code: 0x04, props: pl.clone() });
+            out.push(Ast::Auth { code: 0x18, props: pl.clone() });
+        }
+        let levels: Vec<u8> = if v5 { vec![5] } else { vec![3, 4] };
+        for level in levels {
+            out.push(Ast::Connect {
+                level,
+                clean: true,
+                keep_alive: 7,
+                props: pl.clone(),
+                client_id: "same".into(),
+                will: Some(Will { qos: 1, retain: false, props: pl.clone(), topic: "same".into(), payload: b"same".to_vec() }),
+                username: Some("same".into()),
+                password: Some(b"same".to_vec()),
+            });
+        }
+    }
+    out
+}
+
 /// statistics of one `u_field` call (for the evidence)
 #[derive(Clone, Debug, Default)]
 pub struct FieldStats {
